@@ -2,6 +2,9 @@
 
   C08.a shift-set    on every Ok path of a body that shifts any of offset_{answers,nameservers,additional}
                      (Option::map over the old value), offset_edns is shifted as well
+  C08.h shift-by     (E4, rules/geometry.py) every closure that shifts a recorded offset in resize_rr / insert_rr returns, on each of its
+                     paths, x or x + the splice amount; paths that leave x alone are confined to offsets at or before the cursor;
+                     the offset_edns closure of resize_rr distinguishes OPT before / behind the record being resized
   C08.b cache        every listed mutating operation that replaces, resizes or overwrites name bytes of the packet
                      stores `cached = None` on every successful path; any other public mutator found by effects is reported
   C08.d protocol     every site that stores the result of uncompress_with_previous_offset(_, ref) into `packet` takes
@@ -264,6 +267,9 @@ def run(ctx):
         ents = [p for p in MUTATORS_PLAIN if facts.fn(p)] + [k for p in MUTATORS_TRAIT for k in facts.inst_keys(p)]
         presence_rule(ctx, facts, cfg, pe, ents)
         shift_rule(ctx, facts, cfg)
+        if cfg != 'hooks':
+            from rules import geometry
+            geometry.shift_closure_rule(ctx, facts, cfg, 'C08.h')
         cache_rule(ctx, facts, cfg, pe)
         proto_rule(ctx, facts, cfg, pe)
         recompute_rule(ctx, facts, cfg)
